@@ -1,4 +1,4 @@
-import NdonnxVerif.Model.TGraphFns
+import NdonnxVerif.Model.TGraphScatter
 import NdonnxVerif.Driver.Index
 import NdonnxVerif.Driver.Reduce
 /-! Driver commands of the tensor-graph tie: `tg_render` (the term the model says ndonnx emits, as text),
@@ -53,6 +53,22 @@ partial def parseTG : List String → Option (TG × List String)
   | "(" :: "Shape" :: r => do
       let ([x], r) ← parseArgs 1 r | none
       some (.shape x, r)
+  | "(" :: "ShapeFrom" :: k :: r => do
+      let k ← parseNat? k
+      let ([x], r) ← parseArgs 1 r | none
+      some (.shapeFrom k x, r)
+  | "(" :: "Slice3" :: r => do
+      let ([x, s, e], r) ← parseArgs 3 r | none
+      some (.slice3 x s e, r)
+  | "(" :: "Compress0" :: r => do
+      let ([x, c], r) ← parseArgs 2 r | none
+      some (.compress x c, r)
+  | "(" :: "GatherElements0" :: r => do
+      let ([x, i], r) ← parseArgs 2 r | none
+      some (.gatherElements x i, r)
+  | "(" :: "ScatterND" :: r => do
+      let ([x, i, u], r) ← parseArgs 3 r | none
+      some (.scatterND x i u, r)
   | "(" :: "Not" :: r => do
       let ([x], r) ← parseArgs 1 r | none
       some (.not x, r)
@@ -181,6 +197,21 @@ def cmdTgRender (args0 : List String) : String :=
     | some i, some a => (takeGraph x i a).render | _, _ => "bad-op"
   | ["reshape", rank, shape] => match parseNat? rank, parseIntList shape with
     | some r, some s => (reshapeGraph x r s).render | _, _ => "bad-op"
+  | "setitem" :: rank :: es =>                                  -- x = in0, updates = in1
+    match parseNat? rank, es.mapM parseIx with
+    | some r, some idx =>
+      match normaliseIndex r idx with
+      | .ok n => (setitemGraph x (.inp 1) r n).render
+      | .error e => showErr e
+    | _, _ => "bad-op"
+  | ["setitem_mask", rank, rankM] => match parseNat? rank, parseNat? rankM with   -- x = in0, mask = in1, updates = in2
+    | some r, some k => (setitemMaskGraph x (.inp 1) (.inp 2) r k).render | _, _ => "bad-op"
+  | ["mask", rankM] => match parseNat? rankM with                              -- x = in0, mask = in1
+    | some k => (maskGraph x (.inp 1) k).render | none => "bad-op"
+  | ["nonzero", code, rank, i] => match parseNat? code, parseNat? rank, parseNat? i with
+    | some c, some r, some i => (nonzeroGraph x c r i).render | _, _, _ => "bad-op"
+  | ["ndindex", rank] => match parseNat? rank with
+    | some r => (ndindexGraph x r).render | none => "bad-op"
   | [fn, t, rank, axis, kd, dt] =>
     match parseNat? t, parseNat? rank, parseAxisArg axis, parseOptCode dt with
     | some t, some r, some ax, some dt =>
